@@ -889,7 +889,9 @@ Proof.
   rewrite (parse_operand_mnem ld LDA) in P' by (assumption || reflexivity).
   rewrite (parse_operand_mnem cm LDA) in P by (assumption || reflexivity).
   destruct (i_mn i2); try discriminate.
-  - (* BEQ *) apply andb_true_iff in CR. destruct CR as [CR _]. apply negb_true_iff in CR.
+  - (* BEQ *) apply andb_true_iff in CR. destruct CR as [CR _].
+    apply andb_true_iff in CR. destruct CR as [CR _]. apply andb_true_iff in CR. destruct CR as [CR _].
+    apply negb_true_iff in CR.
     apply String.eqb_neq in CR.
     pose proof (INJ v1 v2 CR P' P) as NE. rewrite R', R in NE.
     assert (regv <> x2) by congruence.
@@ -962,26 +964,16 @@ Proof. intros. unfold bytes_ok, cx_state. cbn. auto. Qed.
 Lemma bytes_empty : forall b, 0 <= mget mem_empty b < 256.
 Proof. intros b. rewrite mget_empty. lia. Qed.
 
-Example rule_cmp_known_refuted :
-  exists cfg k i1 i2 s op c s1,
-    know_sound cfg k s /\ bytes_ok s /\
-    cmp_rule (k_acc k) CMP i1 i2 = true /\
-    parse_operand (i_mn i1) (i_op i1) = Some op /\ exec cfg (i_mn i1) op s = XOk s1 c FNext /\
-    branch_taken (i_mn i2) s1 = true.
-Proof.
-  exists (cx_cfg "sym" 512), (mkK (Some "#<sym"%string) None None FUnknown),
-         (cx_ins CMP "#0"), (cx_ins BEQ "l"), (cx_state 0 0 0 255 mem_empty).
-  eexists. eexists. eexists.
-  split; [|split; [|split; [|split; [|split]]]].
-  - unfold know_sound. cbn [k_acc k_x k_y k_flags]. repeat split; try discriminate.
-    intros o Ho. inversion Ho; subst o. eexists. eexists. split; [vm_compute; reflexivity|vm_compute; reflexivity].
-  - apply bytes_ok_cx; try lia. apply bytes_empty.
-  - vm_compute. reflexivity.
-  - vm_compute. reflexivity.
-  - vm_compute. reflexivity.
-  - vm_compute. reflexivity.
-Qed.
-Print Assumptions rule_cmp_known_refuted.
+(** before fix (plain numbers only) this was a counterexample to [rule_cmp_known] without its
+    [imm_text_injective] hypothesis: "#<sym" and "#0" are different texts with equal values (sym at
+    $200).  The rule no longer fires on symbolic immediates. *)
+Example rule_cmp_known_symbolic_not_folded :
+  cmp_rule (Some "#<sym"%string) CMP (cx_ins CMP "#0") (cx_ins BEQ "l") = false /\
+  cmp_rule (Some "#5"%string) CMP (cx_ins CMP "#<sym") (cx_ins BEQ "l") = false /\
+  cmp_rule (Some "#5"%string) CMP (cx_ins CMP "#0") (cx_ins BEQ "l") = true /\
+  cmp_rule (Some "#<sym"%string) CMP (cx_ins CMP "#<sym") (cx_ins BNE "l") = true.
+Proof. repeat split; vm_compute; reflexivity. Qed.
+Print Assumptions rule_cmp_known_symbolic_not_folded.
 
 (** * Pair rules *)
 
